@@ -53,11 +53,12 @@ def _not_nan64(b):
 
 
 @st.composite
-def _layout(draw):
+def _layout(draw, d_strategy=None, n_strategy=None, widths_pool=None):
     version = draw(st.sampled_from(['FCS2.0', 'FCS3.0', 'FCS3.1']))
     dt = draw(st.sampled_from(['I', 'I', 'I', 'F', 'D']))
-    D = draw(st.one_of(st.integers(1, 6), st.integers(1, 6), st.integers(1, 6), st.integers(7, 12)))
-    N = draw(st.one_of(st.integers(2, 40), st.integers(2, 40), st.integers(0, 40)))
+    D = draw(d_strategy or st.one_of(st.integers(1, 6), st.integers(1, 6), st.integers(1, 6), st.integers(7, 12)))
+    N = draw(n_strategy or st.one_of(st.integers(2, 40), st.integers(2, 40), st.integers(0, 40)))
+    WIDTHS = widths_pool or globals()['WIDTHS']
     little = draw(st.booleans())
     byteord = draw(st.sampled_from(['1,2,3,4', '1,2'] if little else ['4,3,2,1', '2,1']))
     if dt == 'I':
